@@ -206,6 +206,9 @@ func finishRun(e *Engine, results []*FnResult, ro runOpts) int {
 			fns = append(fns, fe)
 		}
 	}
+	for k, v := range e.axiomErrs {
+		machinery = append(machinery, "axiom "+k+" could not be evaluated: "+v)
+	}
 	if len(machinery) > 0 {
 		for _, m := range machinery {
 			fmt.Printf("MACHINERY-ERROR: %s\n", m)
